@@ -141,7 +141,7 @@ wuffs_base__magic_number_guess_fourcc(wuffs_base__slice_u8 prefix_data,
   //
   // The fourcc field might be negated, in which case there's further
   // specialization (see § below).
-  static struct {
+  static const struct {
     int32_t fourcc;
     const char* magic;
   } table[] = {
